@@ -723,6 +723,6 @@ def b01 (b : Bool) : String := if b then "1" else "0"
 def obs (s : St) : String :=
   let (codes, part) := render s.wire.reverse [] none
   let cs := if codes.isEmpty then "-" else ".".intercalate (codes.map toString)
-  s!"r={cs} part={part} cl={b01 (s.tClosing || s.tLost)} lost={b01 s.tLost} q={s.messages.length} pa={b01 s.tPaused} w={b01 (s.waiter == .pending)} c={s.calls} x=0{if s.desync then " DESYNC" else ""}{if s.capViolated then " CAPVIOLATED" else ""}"
+  s!"r={cs} part={part} cl={b01 (s.tClosing || s.tLost)} lost={b01 s.tLost} q={s.messages.length} pa={b01 s.tPaused} w={b01 (s.waiter == .pending)} c={s.calls} f={if s.parserPresent then toString s.inFlight else "-"} x=0{if s.desync then " DESYNC" else ""}{if s.capViolated then " CAPVIOLATED" else ""}"
 
 end Aio.C05
